@@ -1,87 +1,82 @@
 #!/usr/bin/env python3
 """Runs every selftest variant (or seeded change) against ALL properties and prints
-which rules fire: the "which checks catch which changes" matrix.
-usage: run_selftests.py [--seeded] [name ...]"""
-import os, sys, json, subprocess, tempfile, shutil, importlib
+which rules fire: the "which checks catch which changes" matrix.  Fact files are cached
+(.work/refs/facts) keyed by /repo HEAD and patch mtime.
+usage: run_selftests.py [--seeded] [-v] [-j N] [name ...]"""
+import os, sys, json
+from concurrent.futures import ProcessPoolExecutor
 ROOT = os.path.dirname(os.path.dirname(os.path.abspath(__file__)))
 sys.path.insert(0, ROOT)
-from hcsa import main as M
-from hcsa.facts import Crate
-from hcsa.engine import Ctx
-REPO = "/repo"
+sys.path.insert(0, os.path.join(ROOT, "tools"))
+import eval_patches as E
 
 
 def evaluate(patch, config="all"):
-    tmp = tempfile.mkdtemp(prefix="hcsa-st-")
-    work = os.path.join(tmp, "repo")
-    subprocess.run(["git", "-C", REPO, "worktree", "add", "--detach", "-q", work, "HEAD"], check=True)
-    try:
-        if os.path.exists(os.path.join(REPO, "Cargo.lock")) and not os.path.exists(os.path.join(work, "Cargo.lock")):
-            shutil.copy(os.path.join(REPO, "Cargo.lock"), os.path.join(work, "Cargo.lock"))
-        p = subprocess.run(["git", "-C", work, "apply", patch], capture_output=True, text=True)
-        if p.returncode != 0:
-            return None, "patch does not apply: " + p.stderr[:200]
-        try:
-            path = M.extract(config, repo=work, out=os.path.join(tmp, "facts.json"))
-        except Exception as e:
-            return None, "does not compile: %r" % e
-        crate = Crate(path)
-        out = {}
-        for prop in M.PROPS:
-            mod = importlib.import_module("hcsa.rules." + prop.lower())
-            ctx = Ctx(crate, "selftest")
-            for r in mod.RULES:
-                feat = getattr(r, "needs_feature", None)
-                if feat and feat not in crate.features:
-                    continue
-                try:
-                    r(ctx)
-                except Exception as e:
-                    ctx.fail(prop, r.__name__, "rule crashed", repr(e))
-            fails = [i for i in ctx.insts if i.verdict != "pass"]
-            if fails:
-                out[prop] = fails
-        return out, ""
-    finally:
-        subprocess.run(["git", "-C", REPO, "worktree", "remove", "--force", work], capture_output=True)
-        subprocess.run(["git", "-C", REPO, "worktree", "prune"], capture_output=True)
-        shutil.rmtree(tmp, ignore_errors=True)
+    """kept for callers: {prop: [(rule, anchor, key, why)]} or (None, err)"""
+    path, err = E.facts_for(patch)
+    if path is None:
+        return None, err
+    return E.run_rules(path), ""
+
+
+def job(a):
+    base, name = a
+    d = os.path.join(ROOT, base, name)
+    src = os.path.join(d, "patch.diff")
+    # cache key must be unique across selftest/ and seeded/
+    link = os.path.join(ROOT, ".work", "refs", "links")
+    os.makedirs(link, exist_ok=True)
+    alias = os.path.join(link, "%s__%s.patch" % (base, name))
+    if not os.path.exists(alias) or os.path.getmtime(alias) < os.path.getmtime(src):
+        import shutil
+        shutil.copy2(src, alias)
+    res, err = evaluate(alias)
+    return name, res, err
 
 
 def main():
     args = sys.argv[1:]
     base = "selftest"
-    if args and args[0] == "--seeded":
+    if "--seeded" in args:
         base = "seeded"
-        args = args[1:]
+        args.remove("--seeded")
+    v = "-v" in args
+    if v:
+        args.remove("-v")
+    j = 8
+    if "-j" in args:
+        k = args.index("-j")
+        j = int(args[k + 1])
+        del args[k:k + 2]
     d = os.path.join(ROOT, base)
-    rows = []
-    for name in sorted(os.listdir(d)):
-        if args and name not in args:
-            continue
-        patch = os.path.join(d, name, "patch.diff")
-        if not os.path.exists(patch):
-            continue
-        meta = json.load(open(os.path.join(d, name, "meta.json")))
-        res, err = evaluate(patch)
-        if res is None:
-            print("%-34s ERROR %s" % (name, err))
-            continue
-        fired = {p: sorted(set(i.rule for i in f)) for p, f in res.items()}
-        exp = meta.get("expect", {})
-        verdict = "ok"
-        for p, needles in exp.items():
-            for n in needles:
-                if not any(n in i.key or n in i.anchor or n in i.rule for i in res.get(p, [])):
-                    verdict = "MISSED %s/%s" % (p, n)
-        print("%-34s %-22s %s" % (name, verdict, json.dumps(fired)))
-        if "-v" in sys.argv:
-            for p, f in res.items():
-                for i in f[:3]:
-                    print("      %s %s :: %s" % (i.rule, i.anchor[:70], i.why[:160]))
-        rows.append((name, fired))
-    return rows
+    names = [n for n in sorted(os.listdir(d)) if (not args or n in args) and os.path.exists(os.path.join(d, n, "patch.diff"))]
+    bad = 0
+    with ProcessPoolExecutor(j) as ex:
+        for name, res, err in ex.map(job, [(base, n) for n in names]):
+            meta = json.load(open(os.path.join(d, name, "meta.json")))
+            if res is None:
+                print("%-34s ERROR %s" % (name, err))
+                bad += 1
+                continue
+            fired = {p: sorted(set(x[0] for x in f)) for p, f in res.items()}
+            exp = meta.get("expect", {})
+            verdict = "ok"
+            for p, needles in exp.items():
+                for n in needles:
+                    if not any(n in k or n in a or n in r for r, a, k, w in res.get(p, [])):
+                        verdict = "MISSED %s/%s" % (p, n)
+            if name.startswith("neg_") and fired:
+                verdict = "FALSE-ALARM"
+            if verdict != "ok":
+                bad += 1
+            print("%-34s %-22s %s" % (name, verdict, json.dumps(fired)))
+            if v:
+                for p, f in res.items():
+                    for r, a, k, w in f[:3]:
+                        print("      %s %s :: %s" % (r, a[:70], w[:160]))
+    print("not ok: %d / %d" % (bad, len(names)))
+    return 1 if bad else 0
 
 
 if __name__ == "__main__":
-    main()
+    sys.exit(main())
